@@ -20,17 +20,29 @@ package tar
 //@   nopanic
 
 // ---- visibility of entries: an entry is announced (Emit) only after its bytes were written completely ----
-//@ spec kid(key string) := uf("tarkey", key)
-//@ spec announced(key string) := gint("emitted", kid(key)) == 1
+//@ spec psOK(ps *pubsub) := ps != nil && ps.visited != nil && ps.subscribers != nil && ps.ctx != nil &&
+//@        forall(k, string, implies(in(k, dom(ps.subscribers)), forall(i, 0, len(ps.subscribers[k]), ps.subscribers[k][i] != nil)))
+//@ spec announced(ps *pubsub, key string) := in(key, dom(ps.visited)) && ps.visited[key]
+//@ spec psReady(fs *ReaderFS) := psOK(fs.ps) && !held(fs.ps.mu)
+//@ spec othersAnnouncedSame(ps *pubsub, key string) := forall(k, string, implies(k != key, announced(ps, k) == old(announced(ps, k))))
 
+// Emit and Wait are verified against the pubsub's own table: an entry is visible exactly when visited[key] is set.
 //@ func (ps *pubsub) Emit(key string)
-//@   assumed
-//@   requires ps != nil
-//@   modifies gint("emitted", kid(key))
-//@   ensures "announced" announced(key)
+//@   props C12
+//@   requires psOK(ps) && !held(ps.mu)
+//@   modifies mapOf(ps.visited), mapOf(ps.subscribers), held(ps.mu)
+//@   loop 1 invariant "any" rangeindex >= -1 && rangeindex < max(len(funcs), 1) && (len(funcs) > 0 || rangeindex == -1) && forall(i, 0, len(funcs), funcs[i] != nil) && psOK(ps) && !held(ps.mu) && announced(ps, key) && othersAnnouncedSame(ps, key)
+//@   ensures "announced" [C12] announced(ps, key)
+//@   ensures "others" [C12] othersAnnouncedSame(ps, key)
+//@   ensures "unlocked" !held(ps.mu) && psOK(ps)
+//@   nopanic
 //@ func (ps *pubsub) Wait(key string)
-//@   assumed
-//@   requires ps != nil
+//@   props C12
+//@   requires psOK(ps) && !held(ps.mu)
+//@   modifies mapOf(ps.subscribers), held(ps.mu)
+//@   ensures "unlocked" !held(ps.mu) && psOK(ps)
+//@   ensures "table-untouched" [C12] forall(k, string, announced(ps, k) == old(announced(ps, k)))
+//@   nopanic
 
 // (io.CopyBuffer: extern contract in cache/contracts_verif.go)
 //@ extern io.ReadFull(r io.Reader, buf []byte) (n int, err error)
@@ -61,11 +73,12 @@ package tar
 
 //@ func (fs *ReaderFS) writeFile(path string, info hackpadfs.FileInfo, initialBuf *buffer, n int, r io.Reader, copyBuf *buffer) (returnedErr error)
 //@   props C12 C14
-//@   requires fs != nil && fs.unarchiveFS != nil && fs.ps != nil && info != nil && initialBuf != nil && 0 <= n && n <= len(initialBuf.Data) && (r == nil || copyBuf != nil)
-//@   modifies world(), gint("emitted", kid(path))
+//@   requires fs != nil && fs.unarchiveFS != nil && psReady(fs) && info != nil && initialBuf != nil && 0 <= n && n <= len(initialBuf.Data) && (r == nil || copyBuf != nil)
+//@   modifies world(), mapOf(fs.ps.visited), mapOf(fs.ps.subscribers), held(fs.ps.mu)
+//@   ensures "ps-ready" psReady(fs) && othersAnnouncedSame(fs.ps, path)
 //@   ensures "complete-or-error" [C12] iff(returnedErr == nil, old(wfComplete(fs, path, info, r)))
-//@   ensures "announced-only-if-complete" [C12] implies(announced(path) && !old(announced(path)), old(wfComplete(fs, path, info, r)))
-//@   ensures "announced-when-complete" [C12] implies(old(wfComplete(fs, path, info, r)), announced(path))
+//@   ensures "announced-only-if-complete" [C12] implies(announced(fs.ps, path) && !old(announced(fs.ps, path)), old(wfComplete(fs, path, info, r)))
+//@   ensures "announced-when-complete" [C12] implies(old(wfComplete(fs, path, info, r)), announced(fs.ps, path))
 //@   nopanic
 
 //@ func (f fullReader) Read(p []byte) (n int, err error)
@@ -80,8 +93,9 @@ package tar
 // ---- Open ----
 //@ func (fs *ReaderFS) Open(name string) (f hackpadfs.File, err error)
 //@   props C12 C04 C05
-//@   requires fs != nil && fs.unarchiveFS != nil && fs.ps != nil && fs.readerCtx != nil
-//@   modifies world()
+//@   requires fs != nil && fs.unarchiveFS != nil && psReady(fs) && fs.readerCtx != nil
+//@   modifies world(), mapOf(fs.ps.subscribers), held(fs.ps.mu)
+//@   ensures "ps-ready" [C12] psReady(fs) && forall(k, string, announced(fs.ps, k) == old(announced(fs.ps, k)))
 //@   ensures "gate" [C04 C05] implies(!VP(name), f == nil && isPathError(err) && pathOf(err) == name && errIs(err, hackpadfs.ErrInvalid) && world() == old(world()))
 //@   ensures "unpack-failed" [C12] implies(VP(name) && recordedErr(fs) != nil, f == nil && isPathError(err) && pathOf(err) == name && opOf(err) == "open" && innerErr(err) == recordedErr(fs) && world() == old(world()))
 //@   ensures "unpacked" [C12] implies(VP(name) && recordedErr(fs) == nil, f == old(ret("hackpadfs.(FS).Open", 0, hackpadfs.FS(fs.unarchiveFS), name)) && err == old(ret("hackpadfs.(FS).Open", 1, hackpadfs.FS(fs.unarchiveFS), name)))
@@ -121,10 +135,11 @@ package tar
 
 //@ func (fs *ReaderFS) readProcessFile$2()
 //@   props C12 C14
-//@   requires fs != nil && fs.unarchiveFS != nil && fs.ps != nil && info != nil && smallBuf != nil && 0 <= n && n <= len(smallBuf.Data) && wg != nil && errs != nil
-//@   modifies world(), gint("emitted", kid(p)), gint("sent", errs), gint("sentlast.tag", errs), gint("sentlast.val", errs)
+//@   requires fs != nil && fs.unarchiveFS != nil && psReady(fs) && info != nil && smallBuf != nil && 0 <= n && n <= len(smallBuf.Data) && wg != nil && errs != nil
+//@   modifies world(), mapOf(fs.ps.visited), mapOf(fs.ps.subscribers), held(fs.ps.mu), gint("sent", errs), gint("sentlast.tag", errs), gint("sentlast.val", errs)
+//@   ensures "ps-ready" psReady(fs) && othersAnnouncedSame(fs.ps, p)
 //@   ensures "write-error-reported" [C12 C14] ite(old(wfComplete(fs, p, info, nil)), gint("sent", errs) == old(gint("sent", errs)), gint("sent", errs) == old(gint("sent", errs)) + 1 && gint("sentlast.tag", errs) != 0)
-//@   ensures "announced-only-if-complete" [C12] implies(announced(p) && !old(announced(p)), old(wfComplete(fs, p, info, nil)))
+//@   ensures "announced-only-if-complete" [C12] implies(announced(fs.ps, p) && !old(announced(fs.ps, p)), old(wfComplete(fs, p, info, nil)))
 //@   nopanic
 
 // ---- the directory cache of readErr: a directory is remembered only after MkdirAll succeeded for it ----
@@ -155,16 +170,17 @@ package tar
 
 //@ func (fs *ReaderFS) readProcessFile(header *tar.Header, r io.Reader, wg *sync.WaitGroup, errs chan error, mkdirAll func(string, hackpadfs.FileMode) error, smallPool *bufferPool, bigPool *bufferPool) (err error)
 //@   props C12 C14
-//@   requires fs != nil && fs.unarchiveFS != nil && fs.ps != nil && fs.callerCtx != nil && header != nil && r != nil && wg != nil && errs != nil && mkdirAll != nil && smallPool != nil && bigPool != nil
-//@   modifies world(), gint("emitted", kid(rp(header.Name)))
+//@   requires fs != nil && fs.unarchiveFS != nil && psReady(fs) && fs.callerCtx != nil && header != nil && r != nil && wg != nil && errs != nil && mkdirAll != nil && smallPool != nil && bigPool != nil
+//@   modifies world(), mapOf(fs.ps.visited), mapOf(fs.ps.subscribers), held(fs.ps.mu)
+//@   ensures "ps-ready" psReady(fs) && othersAnnouncedSame(fs.ps, rp(header.Name))
 //@   ensures "cancelled" implies(old(cancelled(fs.callerCtx)), err != nil && world() == old(world()))
 //@   ensures "base-dir-error" [C12 C14] implies(!old(cancelled(fs.callerCtx)) && old(prepErr(mkdirAll, header)) != nil, err != nil && world() == old(world()))
 //@   ensures "directory" implies(!old(cancelled(fs.callerCtx)) && old(prepErr(mkdirAll, header)) == nil && old(hIsDir(header)), err == nil && world() == old(world()))
-//@   ensures "visible-only-if-written" [C12] implies(!old(announced(rp(header.Name))) && announced(rp(header.Name)), err == nil)
+//@   ensures "visible-only-if-written" [C12] implies(!old(announced(fs.ps, rp(header.Name))) && announced(fs.ps, rp(header.Name)), err == nil)
 //@   ensures "read-error" [C12 C14] implies(!old(cancelled(fs.callerCtx)) && old(prepErr(mkdirAll, header)) == nil && !old(hIsDir(header)) && old(firstErr(r)) != nil && old(firstErr(r)) != io.EOF && old(firstErr(r)) != io.ErrUnexpectedEOF,
 //@                     err == old(firstErr(r)))
-//@   ensures "large-file" [C12] implies(!old(cancelled(fs.callerCtx)) && old(prepErr(mkdirAll, header)) == nil && !old(hIsDir(header)) && old(firstErr(r)) == nil && !old(announced(rp(header.Name))),
-//@                     iff(err == nil, announced(rp(header.Name))))
+//@   ensures "large-file" [C12] implies(!old(cancelled(fs.callerCtx)) && old(prepErr(mkdirAll, header)) == nil && !old(hIsDir(header)) && old(firstErr(r)) == nil && !old(announced(fs.ps, rp(header.Name))),
+//@                     iff(err == nil, announced(fs.ps, rp(header.Name))))
 //@   nopanic
 
 // ---- the reader loop: stops at the first failure of the archive reader or of an entry ----
@@ -182,12 +198,13 @@ package tar
 
 //@ func (fs *ReaderFS) readErr(r io.Reader) (err error)
 //@   props C12 C14
-//@   requires fs != nil && fs.unarchiveFS != nil && fs.ps != nil && fs.callerCtx != nil && r != nil
-//@   modifies world(), ghost("G|emitted")
+//@   requires fs != nil && fs.unarchiveFS != nil && psReady(fs) && fs.callerCtx != nil && r != nil
+//@   modifies world(), mapOf(fs.ps.visited), mapOf(fs.ps.subscribers), held(fs.ps.mu)
 //@   propagates [C12 C14] readProcessFile
 //@   propagates [C12 C14] Next unless e == io.EOF
 //@   propagates [C12 C14] recv
-//@   loop 1 invariant "entries-so-far-processed" !failed("readProcessFile") && !failed("Next") && !failed("recv") && fs != nil && fs.unarchiveFS != nil && fs.ps != nil && fs.callerCtx != nil
+//@   loop 1 modifies world(), mapOf(fs.ps.visited), mapOf(fs.ps.subscribers), held(fs.ps.mu)
+//@   loop 1 invariant "entries-so-far-processed" !failed("readProcessFile") && !failed("Next") && !failed("recv") && fs != nil && fs.unarchiveFS != nil && psReady(fs) && fs.callerCtx != nil
 //@   nopanic
 
 // ---- the outcome of unpacking: a failure of the reader loop is recorded, and the reader is always marked done ----
@@ -203,7 +220,7 @@ package tar
 //@   modifies world()
 
 //@ spec unpackFailed(fs *ReaderFS) := gint("atomtag", fs.unarchiveErr) != 0
-//@ spec readerOK(fs *ReaderFS) := fs != nil && fs.unarchiveFS != nil && fs.ps != nil && fs.callerCtx != nil && fs.readerCtx != nil && fs.callerCancel != nil && fs.readerDone != nil &&
+//@ spec readerOK(fs *ReaderFS) := fs != nil && fs.unarchiveFS != nil && psReady(fs) && fs.callerCtx != nil && fs.readerCtx != nil && fs.callerCancel != nil && fs.readerDone != nil &&
 //@        cancels(fs.callerCancel, fs.callerCtx) && cancels(fs.readerDone, fs.readerCtx)
 
 //@ func (fs *ReaderFS) read(r io.Reader)
@@ -212,7 +229,7 @@ package tar
 //@   tracks readErr
 //@   callsite callerCancel requires "failure-recorded-before-waiters-are-released" implies(failed("readErr"), recordedErr(fs) != nil)
 //@   callsite readerDone requires "failure-recorded-before-done" implies(failed("readErr"), recordedErr(fs) != nil)
-//@   modifies world(), ghost("G|emitted"), gint("atomtag", fs.unarchiveErr), gint("atomval", fs.unarchiveErr), cancelled(fs.callerCtx), cancelled(fs.readerCtx)
+//@   modifies world(), mapOf(fs.ps.visited), mapOf(fs.ps.subscribers), held(fs.ps.mu), gint("atomtag", fs.unarchiveErr), gint("atomval", fs.unarchiveErr), cancelled(fs.callerCtx), cancelled(fs.readerCtx)
 //@   ensures "failure-recorded" [C12 C14] implies(failed("readErr"), recordedErr(fs) != nil)
 //@   ensures "success-leaves-no-error" [C12] implies(!failed("readErr"), gint("atomtag", fs.unarchiveErr) == old(gint("atomtag", fs.unarchiveErr)) && gint("atomval", fs.unarchiveErr) == old(gint("atomval", fs.unarchiveErr)))
 //@   ensures "done" [C12] cancelled(fs.readerCtx) && cancelled(fs.callerCtx)
@@ -226,8 +243,10 @@ package tar
 
 // ---- the constructor: refuses a destination whose root is not an empty directory; otherwise starts the reader ----
 //@ func newPubsub(ctx context.Context) (ps *pubsub)
-//@   assumed
-//@   ensures "pubsub" ps != nil && fresh(ps)
+//@   props C12
+//@   requires ctx != nil
+//@   ensures "pubsub" [C12] ps != nil && fresh(ps) && psOK(ps) && !held(ps.mu) && ps.ctx == ctx && forall(k, string, !announced(ps, k))
+//@   nopanic
 
 //@ spec nrDest(options ReaderFSOptions) := hackpadfs.FS(options.UnarchiveFS)
 //@ func NewReaderFS(ctx context.Context, r io.Reader, options ReaderFSOptions) (fs *ReaderFS, retErr error)
@@ -237,7 +256,7 @@ package tar
 //@   loop 1 invariant "names" rangeindex >= -1 && rangeindex < max(len(dirEntries), 1) && (len(dirEntries) > 0 || rangeindex == -1) && (ref(names) == 0 || fresh(names))
 //@   ensures "destination-not-empty" [C12] implies(options.UnarchiveFS != nil && (old(ret("hackpadfs.ReadDir", 1, nrDest(options), ".")) != nil || len(old(ret("hackpadfs.ReadDir", 0, nrDest(options), "."))) != 0),
 //@                     fs == nil && retErr != nil)
-//@   ensures "started" [C12] implies(retErr == nil, fs != nil && fresh(fs) && readerOK(fs) && !cancelled(fs.readerCtx) && recordedErr(fs) == nil &&
+//@   ensures "started" [C12] implies(retErr == nil, fs != nil && fresh(fs) && readerOK(fs) && forall(k, string, !announced(fs.ps, k)) && !cancelled(fs.readerCtx) && recordedErr(fs) == nil &&
 //@                     implies(options.UnarchiveFS != nil, fs.unarchiveFS == options.UnarchiveFS))
 //@   ensures "failed" implies(retErr != nil, fs == nil)
 //@   nopanic
